@@ -330,10 +330,10 @@ def seam_a(res, t):
 # -- seam (b): real machines -----------------------------------------------------------------------
 
 PROVIDERS = ("method", "attribute", "property", "model-attribute", "listener-attribute",
-             "machine+listener")
+             "machine+listener", "async-method")
 
 
-def build_machine(entries, names, provider, unless_entries=()):
+def build_machine(entries, names, provider, unless_entries=(), any_style=False):
     """entries: cond entries (strings).  Returns (cls, model_cls, listener_cls, reads, holder)."""
     from statemachine import State, StateMachine
     from statemachine.factory import StateMachineMetaclass
@@ -341,8 +341,14 @@ def build_machine(entries, names, provider, unless_entries=()):
     holder = {"vals": {}}
     sa, sb = State(initial=True), State()
     ns = {"st_a": sa, "st_b": sb}
-    ns["go"] = sa.to(sb, cond=list(entries) or None, unless=list(unless_entries) or None)
-    ns["back"] = sb.to(sa)
+    if any_style:
+        # the guarded transition is declared with from_.any(): the guards are copied onto the
+        # expanded per-state transitions
+        ns["go"] = sb.from_.any(cond=list(entries) or None, unless=list(unless_entries) or None)
+        ns["back"] = sb.to(sa)
+    else:
+        ns["go"] = sa.to(sb, cond=list(entries) or None, unless=list(unless_entries) or None)
+        ns["back"] = sb.to(sa)
     holder["vals"] = {nm: ((True, True) if provider == "machine+listener" else True)
                       for nm in names}
     mod_ns = {"state": None}
@@ -357,8 +363,17 @@ def build_machine(entries, names, provider, unless_entries=()):
         g.__name__ = nm
         g.__qualname__ = f"G8_{who}_{provider}.{nm}"
         return g
+    def agetter(nm, who):
+        async def g(self):
+            reads.append((who, nm))
+            return holder["vals"][nm]
+        g.__name__ = nm
+        g.__qualname__ = f"G8A_{who}.{nm}"
+        return g
     for nm in names:
-        if provider == "method":
+        if provider == "async-method":
+            ns[nm] = agetter(nm, "machine")
+        elif provider == "method":
             ns[nm] = getter(nm, "machine")
         elif provider in ("attribute",):
             ns[nm] = "UNSET"           # overwritten per valuation on the instance
@@ -383,6 +398,8 @@ def seam_b_valid(res, t, provider):
     names = names_of(t)
     if not names:
         return
+    if provider == "async-method" and t[0] != "atom":
+        return      # coroutine operands inside an expression: C05's known finding
     from statemachine.exceptions import InvalidDefinition
     for (expr, py, toks, opmask) in renderings(t):
         for polarity in ("cond", "unless"):
@@ -507,10 +524,11 @@ def seam_b_lists(res):
                (("a == 1", "a == '1'"), ()),
                (("a and b",), ("a and (b)",)),
                (("a or b",), ("b or a", "a and b"))]
-    for provider in ("method", "property", "model-attribute"):
+    for provider in ("method", "property", "model-attribute", "method/from_.any"):
         for (ce, ue) in combos:
             names = ["a", "b", "c"]
-            cls, Mod, Lis, reads, holder = build_machine(ce, names, provider, ue)
+            cls, Mod, Lis, reads, holder = build_machine(ce, names, provider.split("/")[0], ue,
+                                                         any_style=provider.endswith("any"))
             try:
                 sm = instantiate(cls, Mod, Lis)
             except Exception as e:   # noqa: BLE001
